@@ -46,6 +46,10 @@ structure St where
   wadds : Std.HashMap Nat (List Entry) := {}      -- every add call so far (newest first), replayed at w.fin once the compression table is known
   readers : Std.HashMap Nat Rd := {}
   riters : Std.HashMap Nat (Option RIter) := {}    -- none = NULL iterator
+  mergers : Std.HashMap Nat (String × Bool × List (List Entry)) := {}   -- merge spec, dupsort, source contents
+  miters : Std.HashMap Nat (Option MIter × String × Bool) := {}
+  fixF2 : Bool := true
+  fixF8 : Bool := true
   fixF1 : Bool := true
   fixF9 : Bool := true
   dead : Bool := false                              -- the modelled process has aborted
@@ -90,6 +94,79 @@ def stepCodec (line : String) : Option String :=
     | _, _ => none
   | _ => none
 
+
+/-- values are sequences of 2-byte tokens; the test merge function is the sorted multiset union -/
+def tokens : Bytes → List (UInt8 × UInt8) × Bytes
+  | a :: b :: rest => let r := tokens rest; ((a, b) :: r.1, r.2)
+  | rest => ([], rest)
+def tokLe (x y : UInt8 × UInt8) : Bool := x.1 < y.1 || (x.1 == y.1 && x.2 ≤ y.2)
+def mergeUnion (failKey : Option Bytes) (k v0 v1 : Bytes) : Option Bytes :=
+  if failKey == some k then none else
+  let t := tokens (v0 ++ v1)
+  let sorted := t.1.mergeSort tokLe
+  some (sorted.flatMap (fun p => [p.1, p.2]) ++ t.2)
+def dupsortBytes (_k v0 v1 : Bytes) : Ordering := bcmp v0 v1
+
+def mkMCfg (s : St) (mg : String) (ds : Bool) : MCfg :=
+  let merge : Option (Bytes → Bytes → Bytes → Option Bytes) :=
+    if mg == "union" then some (mergeUnion none)
+    else if mg.startsWith "fail:" then some (mergeUnion (unhex (mg.drop 5).toString))
+    else none
+  { merge, dupsort := if ds then some dupsortBytes else none, fixF2 := s.fixF2, fixF8 := s.fixF8 }
+
+def parsePairs : List String → Option (List Entry)
+  | [] => some []
+  | k :: v :: rest => match unhex k, unhex v, parsePairs rest with
+    | some k, some v, some es => some ({ key := k, val := v } :: es)
+    | _, _, _ => none
+  | _ => none
+
+def stepMerger (s : St) (line : String) : Option (St × String) :=
+  match line.trimAscii.toString.splitOn " " with
+  | "m.new" :: id :: args =>
+    id.toNat?.map fun i =>
+      ({ s with mergers := s.mergers.insert i ((kv args "merge").getD "none", kvNat args "dupsort" 0 == 1, []) }, "ok")
+  | "m.src" :: id :: args =>
+    match id.toNat? with
+    | some i => match s.mergers[i]? with
+      | some (mg, ds, tabs) =>
+        match parsePairs (args.filter fun a => !a.contains '=') with
+        | some es => some ({ s with mergers := s.mergers.insert i (mg, ds, tabs ++ [es]) }, "ok")
+        | none => none
+      | none => none
+    | none => none
+  | "m.it" :: mid :: iid :: kargs =>
+    match mid.toNat?, iid.toNat?, parseKind kargs with
+    | some m, some i, some (kind, seekTo) => match s.mergers[m]? with
+      | some (mg, ds, tabs) =>
+        let c := mkMCfg s mg ds
+        match mergerIter c tabs kind (seekTo.getD []) with
+        | none => some ({ s with miters := s.miters.insert i (none, mg, ds) }, "null")
+        | some it => some ({ s with miters := s.miters.insert i (some it, mg, ds) }, "ok")
+      | none => none
+    | _, _, _ => none
+  | ["m.next", iid] =>
+    match iid.toNat? with
+    | some i => match s.miters[i]? with
+      | some (none, _, _) => some (s, "fail")
+      | some (some it, mg, ds) =>
+        let r := mergerNext (mkMCfg s mg ds) it
+        let s' := { s with miters := s.miters.insert i (some r.2, mg, ds) }
+        match r.1 with
+        | .ok k v => some (s', "ent " ++ hex k ++ " " ++ hex v)
+        | .fail => some (s', "fail")
+      | none => none
+    | none => none
+  | ["m.seek", iid, k] =>
+    match iid.toNat?, unhex k with
+    | some i, some k => match s.miters[i]? with
+      | some (none, _, _) => some (s, "fail")
+      | some (some it, mg, ds) =>
+        some ({ s with miters := s.miters.insert i (some (mergerSeek (mkMCfg s mg ds) it k), mg, ds) }, "ok")
+      | none => none
+    | _, _ => none
+  | ["m.close", iid] => iid.toNat?.map fun i => ({ s with miters := s.miters.erase i }, "ok")
+  | _ => none
 
 def stepMore (s : St) (line : String) : St × String :=
   match line.trimAscii.toString.splitOn " " with
@@ -150,15 +227,19 @@ def stepMore (s : St) (line : String) : St × String :=
     match iid.toNat? with
     | some i => ({ s with riters := s.riters.erase i }, "ok")
     | none => (s, "bad-op")
-  | ["reset"] => ({ fixF1 := s.fixF1, fixF9 := s.fixF9 }, "ok")
+  | ["reset"] => ({ fixF1 := s.fixF1, fixF9 := s.fixF9, fixF2 := s.fixF2, fixF8 := s.fixF8 }, "ok")
   | _ => match stepCodec line with
     | some r => (s, r)
-    | none => (s, "bad-op")
+    | none => match stepMerger s line with
+      | some r => r
+      | none => (s, "bad-op")
 
 def step (s : St) (line : String) : St × String :=
   match line.trimAscii.toString.splitOn " " with
   | ["cfg", "fixF1", v] => ({ s with fixF1 := v == "1" }, "ok")
   | ["cfg", "fixF9", v] => ({ s with fixF9 := v == "1" }, "ok")
+  | ["cfg", "fixF2", v] => ({ s with fixF2 := v == "1" }, "ok")
+  | ["cfg", "fixF8", v] => ({ s with fixF8 := v == "1" }, "ok")
   | ["blob", id, h] =>
     match id.toNat?, unhex h with
     | some i, some b => ({ s with blobs := s.blobs.insert i b }, "ok")
